@@ -11,7 +11,7 @@ From Coq Require Import Reals.
 From Coquelicot Require Import Coquelicot.
 From Cheetah Require Import Base.Mat Optics.Maps Bmadx.Coords Bmadx.DriftX Bmadx.DriftXProofs Bmadx.DriftXJac Bmadx.Tdc Bmadx.TdcProofs
   Bmadx.QuadX Bmadx.QuadXProofs Bmadx.QuadXFlow Bmadx.QuadXJac
-  Bmadx.BendX Bmadx.BendXProofs Bmadx.BendXGeom Bmadx.BendXOrbit Bmadx.BendXRefuted.
+  Bmadx.BendX Bmadx.BendXProofs Bmadx.BendXGeom Bmadx.BendXOrbit Bmadx.BendXJac Bmadx.BendXRefuted.
 Open Scope R_scope.
 
 (** sqrt_one(x) = sqrt(1+x) - 1 *)
@@ -258,6 +258,40 @@ Theorem C07_bendx_body_uniform_field : forall L ang, L <> 0 -> ang <> 0 -> foral
   (R2 - r * cos phi2) * sin ang + r * sin phi2 * cos ang = r * sin phi1.
 Proof. exact body_uniform_field. Qed.
 
+(** (c) the body is the exact sector-bend map in closed form (no arcsin / arctan2): with w = sqrt((1+pz)^2 - py^2 - px^2),
+      px' = px cos(angle) + sin(angle) (w - (1 + g x))
+      x'  = ((1 + g x) cos(angle) - (w cos(angle) - px sin(angle)) + sqrt(D) - 1) / g,
+      D   = (w cos - px sin)^2 + 2 (w sin + px cos)(1 + g x) sin - ((1 + g x) sin)^2
+    for every particle for which the code is defined ... *)
+Theorem C07_bendx_body_is_sector_map : forall L ang, L <> 0 -> ang <> 0 -> forall p0c m q, bb_defined L ang q ->
+  bpx (bendx_body L ang p0c m q) = sect_px (bb_g L ang) ang (bx q) (bpx q) (bpy q) (bpz q) /\
+  bx (bendx_body L ang p0c m q) = sect_x (bb_g L ang) ang (bx q) (bpx q) (bpy q) (bpz q).
+Proof. exact body_is_sector_map. Qed.
+
+(** ... and the Jacobian of that map at the design orbit w.r.t. (x, px, pz) is
+      [ cos th        sin th / g    (1 - cos th)/g ]
+      [ -g sin th     cos th        sin th         ]
+    the rows 0, 1 / columns 0, 1, 5 (times beta: d pz/d delta = 1/beta0) of the linear sector bend.
+    _partial: (i) the statement is about the closed form; that the coded body has these derivatives follows from
+    C07_bendx_body_is_sector_map on a neighbourhood of the design orbit, and the openness of [bb_defined] there is not proved in Coq;
+    (ii) the y- and z-rows (Lp as a function of py, pz) and the conversion delta <-> pz are not differentiated (autograd oracle);
+    (iii) Dipole.transfer_map evaluates base_rmatrix at k1 = 0 whose guard sets kx2 = hx^2 + 1e-12, see C07_sector_entries_vs_base *)
+Theorem C07_bendx_body_jacobian_at_0_partial : forall g th, g <> 0 ->
+  is_derive (fun t => sect_x g th t 0 0 0) 0 (cos th) /\
+  is_derive (fun t => sect_x g th 0 t 0 0) 0 (sin th / g) /\
+  is_derive (fun t => sect_x g th 0 0 0 t) 0 ((1 - cos th) / g) /\
+  is_derive (fun t => sect_px g th t 0 0 0) 0 (- g * sin th) /\
+  is_derive (fun t => sect_px g th 0 t 0 0) 0 (cos th) /\
+  is_derive (fun t => sect_px g th 0 0 0 t) 0 (sin th).
+Proof. exact sect_jacobian. Qed.
+
+(** the entries of base_untilted at kx2 = hx^2 are those numbers (th = hx L); Dipole.transfer_map uses kx2 = hx^2 + 1e-12 *)
+Theorem C07_sector_entries_vs_base : forall hx L, 0 < hx ->
+  Cf (hx²) L = cos (hx * L) /\ Sf (hx²) L = sin (hx * L) / hx /\
+  hx / hx² * (1 - Cf (hx²) L) = (1 - cos (hx * L)) / hx /\ - hx² * Sf (hx²) L = - hx * sin (hx * L) /\
+  kx2 0 hx = hx² + 1e-12.
+Proof. exact sector_entries_vs_base. Qed.
+
 (** torch.arctan2 as modelled returns the polar angle: cos = x/|.|, sin = y/|.| away from the origin *)
 Theorem C07_atan2_polar : forall y x, 0 < x ^ 2 + y ^ 2 ->
   cos (atan2 y x) = x / sqrt (x ^ 2 + y ^ 2) /\ sin (atan2 y x) = y / sqrt (x ^ 2 + y ^ 2).
@@ -326,3 +360,6 @@ Print Assumptions C07_cosc_spec.
 Print Assumptions C07_bendx_c1_eq_c2.
 Print Assumptions C07_bendx_c2_wrong_divisor_differs.
 Print Assumptions C07_bendx_chain_sound.
+Print Assumptions C07_bendx_body_is_sector_map.
+Print Assumptions C07_bendx_body_jacobian_at_0_partial.
+Print Assumptions C07_sector_entries_vs_base.
